@@ -19,7 +19,7 @@ CLAIMED = {
  "C14": ("post-dominance and ordering of calls in the transcript methods' CFGs, value-identity dataflow, write-effect analysis (F7, W1)",
          "Static decision, for all call sequences, of: appends unconditional and complete; challenge = hash of everything pending, digest before reset, buffer cleared after hashing, same little-endian-reduced scalar re-absorbed and returned; canonical encodings absorbed; protocol label first; labels/messages never modified. SHA-256, the reduction arithmetic and collision resistance are not decided.",
          "4 C14, 3.2 F7"),
- "C06": ("call-graph who-may-call, must-pass-through on the CFG specialised to trusted=false, canonical-only decoder rule, finite-outcome evaluation of the Legendre decision (D1-D4, D7, W1)",
+ "C06": ("call-graph who-may-call, must-pass-through on the CFG specialised to trusted=false and on the exported validating wrapper, canonical-only decoder rule, finite-outcome evaluation of the Legendre decision (D1-D4, D7, D12, W1)",
          "Static decision, for all inputs and paths, that untrusted decoding can succeed only after: exact length, canonical decoding of x with its error propagated, on-curve test, subgroup test on that same x accepting exactly Legendre=+1 of 1-a*x^2, and (uncompressed) byte equality of the recomputed canonical y; that no untrusted entry point reaches an unchecked/reducing decoder; that decoders leave their buffer alone. Found and fixed DEF-1. Square-root/Legendre arithmetic not decided.",
          "4 C06, 3.3"),
  "C10": ("writer/reader layout extraction and comparison, EOF-probe rule, error-discipline must-pass rule, who-may-call, finite-outcome evaluation of the canonical-scalar decision (D1, D4-D7, W1)",
@@ -34,7 +34,7 @@ CLAIMED = {
  "C12": ("goroutine/channel/pool discipline over SSA: per-goroutine slot classification of every write of every spawned function, join-before-use must-pass, channel capacity/count agreement, commutative fan-in, captured-cell stores, pool use-after-Put; plus write-effect immutability of shared state (G1-G7, W2, W3)",
          "Static decision, for all schedules, that (1) state shared between API calls is written only during construction/initialisation; (2) inside a call every goroutine writes only its own slots (or a channel / sync object), (3) parents read those slots and return only after the join of each child, (4) sends fit capacities or are matched one-to-one by receives with the same bound, close follows the join, so no call blocks forever on its own channels, (5) pooled integers are never used after Put. 'Returns exactly what it returns alone' as a value-level statement and races inside dependencies are not decided.",
          "4 C12, 3.6"),
- "C20": ("CFG post-dominance/ordering and per-iteration-cell analysis of the executor (G7, G5, G3)",
+ "C20": ("CFG post-dominance/ordering and per-iteration-cell analysis of the executor, difference-bound analysis of the ranges, symbolic execution of one loop iteration with polynomial identities for the partition (G7, G5, G3, I1, I2, S2)",
          "Static decision of the synchronisation clauses ONLY: Execute returns only after every invocation returned (Add before each spawn, Done after work on every path of the child, Wait on every path to return), each child calls work exactly once with the two values computed for its own iteration, one spawn per iteration; callers size result channels by the value they pass as the worker limit. NOT decided: the range arithmetic (disjoint contiguous cover of [0,n), at most min(n,m) invocations, no empty/out-of-bounds range) - it quantifies over integer values of n and m and needs enumeration or a solver, both outside this technique family; a remainder-distribution bug is not detected.",
          "4 C20, 3.6 G7"),
  "C03": ("Fiat-Shamir schedule extraction vs frozen spec table, layout extraction, commutativity of fan-in combiners, write-effect immutability (F1,F2,F4,F7,D5,G2-G4,W2,W3)",
@@ -86,6 +86,9 @@ def main():
                 ids = [r["rule"] for r in ev["coverage"]["rules_applied"]]
                 import re as _re
                 tech = _re.sub(r"\s*\([A-Z0-9,\- ;/a-z']*\)$", "", tech) + " - rules applied: " + " ".join(ids)
+                # what the check claims is stated next to its rule list (rules/props.go) and travels in the evidence
+                if ev["coverage"].get("explanation"):
+                    text = ev["coverage"]["explanation"][0].upper() + ev["coverage"]["explanation"][1:]
             except Exception:
                 pass
             checks.append({
